@@ -4,6 +4,7 @@ import Driver.Brk
 import Driver.C01
 import Driver.C04
 import Driver.C06
+import Driver.C09
 import Driver.C10
 import Driver.C12
 import Driver.C15
@@ -48,6 +49,7 @@ def main (args : List String) : IO UInt32 := do
   | ["C03"] => loopSt stdin stdout Sec.step {}; return 0
   | ["C04"] => loopSt stdin stdout C04.step {}; return 0
   | ["C06"] => loopSt stdin stdout C06.step {}; return 0
+  | ["C09"] => loop stdin stdout C09.step; return 0
   | ["C10"] => loopSt stdin stdout C10.step {}; return 0
   | ["C15"] => loopSt stdin stdout C15.step {}; return 0
   | ["C12"] => loop stdin stdout C12.step; return 0
